@@ -3,6 +3,7 @@ package reorgdetector
 import (
 	"context"
 	"database/sql"
+	"errors"
 	"fmt"
 	"math/big"
 	"sync"
@@ -12,6 +13,7 @@ import (
 	"github.com/agglayer/aggkit/log"
 	"github.com/agglayer/aggkit/reorgdetector/migrations"
 	aggkittypes "github.com/agglayer/aggkit/types"
+	"github.com/ethereum/go-ethereum"
 	"github.com/ethereum/go-ethereum/common"
 	"github.com/ethereum/go-ethereum/core/types"
 	"golang.org/x/sync/errgroup"
@@ -231,15 +233,29 @@ func (rd *ReorgDetector) detectReorgInTrackedList(ctx context.Context) error {
 					rd.network, event.SubscriberID, event.FromBlock, event.ToBlock, event.CurrentHash, event.TrackedHash)
 				// Notify the subscriber about the reorg
 				rd.notifySubscriber(id, hdr)
-				// Remove the reorged block and all the following blocks that were tracked when the reorg was
+				// Remove the reorged block and the following blocks that were tracked when the reorg was
 				// detected, from DB and from memory. By now the subscriber has processed the reorg and may
 				// already be tracking blocks of the new fork with the same numbers: those must stay tracked,
-				// so only the entries with the old hashes are removed
-				if err := rd.removeTrackedBlocks(event.SubscriberID, headers[i:]); err != nil {
+				// so only the entries with the old hashes are removed. Some of the following blocks may
+				// even belong to the new fork already (the subscriber processed them before the reorg was
+				// reported, and tracks them again with the very same hash): what still matches the chain
+				// stays tracked
+				reorgedHeaders := make([]header, 0, len(headers)-i)
+				for _, h := range headers[i:] {
+					current, err := rd.client.HeaderByNumber(ctx, new(big.Int).SetUint64(h.Num))
+					if err == nil && current.Hash() == h.Hash {
+						continue
+					}
+					if err != nil && !errors.Is(err, ethereum.NotFound) {
+						return fmt.Errorf("failed to get the header %d: %w", h.Num, err)
+					}
+					reorgedHeaders = append(reorgedHeaders, h)
+				}
+				if err := rd.removeTrackedBlocks(event.SubscriberID, reorgedHeaders); err != nil {
 					return fmt.Errorf("error removing blocks from DB for subscriber %s between blocks %d and %d: %w",
 						event.SubscriberID, event.FromBlock, event.ToBlock, err)
 				}
-				hdrs.removeHeaders(headers[i:])
+				hdrs.removeHeaders(reorgedHeaders)
 
 				break
 			}
